@@ -22,7 +22,7 @@ rebuilds from their own minimal-parenthesis print -/
 def Canon : Nat → E → Prop
   | _, .atom _ => True
   | _, .paren e => Canon 1 e
-  | _, .pre _ e => Canon prefixBp e
+  | _, .pre o e => t.preOK o = true ∧ Canon prefixBp e
   | bp, .bin o l r =>
       bp ≤ t.pow o ∧ Canon (rbp t o) r ∧
       (match l with
@@ -64,11 +64,15 @@ theorem mono :
         | .atom n' :: ts, h => simpa using h
         | .pre o :: ts, h =>
           simp only at h ⊢
-          cases he : exprBp t n prefixBp ts with
-          | none => simp [he] at h
-          | some er =>
-            simp only [ihE _ _ _ he k]
-            simpa [he] using h
+          split
+          · rename_i hp
+            simp only [hp, if_true] at h
+            cases he : exprBp t n prefixBp ts with
+            | none => simp [he] at h
+            | some er =>
+              simp only [ihE _ _ _ he k]
+              simpa [he] using h
+          · rename_i hp; simp [hp] at h
         | .lp :: ts, h =>
           simp only at h ⊢
           cases he : exprBp t n 1 ts with
@@ -116,7 +120,7 @@ theorem rightOK_of_canon (hs : Small t) (e : E) (b : Nat) (o : Op) (xs : List To
   | paren e ih => trivial
   | pre o' e ih =>
     simp only [Canon] at hc
-    exact ih _ hc (hs o)
+    exact ih _ hc.2 (hs o)
   | bin o' l r ihl ihr =>
     simp only [Canon] at hc
     obtain ⟨h1, h2, _⟩ := hc
@@ -180,6 +184,7 @@ theorem Q (hs : Small t) (e : E) : ∀ bp rest res, Canon t bp e → RightOK t e
   | pre o e ih =>
     intro bp rest res hc hr ⟨f, hf⟩
     simp only [Canon] at hc
+    obtain ⟨hpre, hc⟩ := hc
     have hin := ih prefixBp rest (e, rest) hc hr ⟨1, loop_stop t _ e rest (follow_prefix t hs rest)⟩
     obtain ⟨f1, hf1⟩ := hin
     refine ⟨f1 + f + 2, ?_⟩
@@ -191,7 +196,7 @@ theorem Q (hs : Small t) (e : E) : ∀ bp rest res, Canon t bp e → RightOK t e
     simp only [exprBp, print, List.cons_append]
     have e3 : f1 + f + 1 = (f1 + f) + 1 := by omega
     rw [e3]
-    simp only [primary, h1]
+    simp only [primary, hpre, if_true, h1]
     simpa [e2, e3] using h2
   | bin o l r ihl ihr =>
     intro bp rest res hc hr ⟨f, hf⟩
@@ -208,7 +213,7 @@ theorem Q (hs : Small t) (e : E) : ∀ bp rest res, Canon t bp e → RightOK t e
       | paren e => trivial
       | pre o' e' =>
         simp only [Canon] at hcl
-        exact rightOK_of_canon t hs e' _ o _ hcl (hs o)
+        exact rightOK_of_canon t hs e' _ o _ hcl.2 (hs o)
       | bin o' l' r' =>
         simp only at hcl
         obtain ⟨hlt, hcl2⟩ := hcl
@@ -263,7 +268,14 @@ def specLevel : Op → Nat
 def specUnaryLevel : Nat := 11
 
 def specTab : Tab :=
-  { pow := specLevel, assoc := fun o => if o == .DOUBLE_STAR then .right else .left }
+  { pow := specLevel, assoc := fun o => if o == .DOUBLE_STAR then .right else .left
+    preOK := fun o => o == .MINUS || o == .BANG || o == .TILDE }
+
+/-- the three unary operators of OpenQASM 3 -/
+def unaryOps : List Op := [.MINUS, .BANG, .TILDE]
+
+/-- unary operators the implementation does not accept at the start of an expression -/
+def unaryRejected : List Op := unaryOps.filter fun o => !implTab.preOK o
 
 /-- does `a o1 b o2 c` group as `(a o1 b) o2 c` under table `t`? -/
 def groupsLeft (t : Tab) (o1 o2 : Op) : Bool := !(decide (rbp t o1 ≤ t.pow o2))
